@@ -142,7 +142,12 @@ def step (st : St) (j : Json) : St × List String :=
     ({ st with w := w' }, [s!"race A[{showAuthOut oa}] B[{showAuthOut ob}]"])
   | "code" =>
     let r : CodeReq := { subject := jStr j "subject", code := optStr j "code", verifier := optStr j "verifier",
-                         clientId := optStr j "client_id", dpop := parseDPoP (jObj j "dpop") }
+                         clientId := optStr j "client_id", dpop := parseDPoP (jObj j "dpop"),
+                         extra := (jArr j "extra_form").filterMap fun p => match p with
+                           | .arr a => match a.toList with
+                             | [k, v] => some (k.getStr?.toOption.getD "", v.getStr?.toOption.getD "")
+                             | _ => none
+                           | _ => none }
     let tbl := (jArr j "sha").map fun p => (jStr p "in", jStr p "out")
     let sha := fun v => ((tbl.find? (·.1 == v)).map (·.2)).getD ("unknown-digest:" ++ v)
     let (w', res) := issueCode st.cfg sha st.w t r
